@@ -61,6 +61,8 @@ pub enum DenomForm {
     NearChannel,
     /// the counterparty's port with a suffix (transfer -> transferx)
     NearPort,
+    /// the counterparty's port behind a contract-port namespace (transfer -> wasm.transfer)
+    WasmPort,
     /// prefix applied twice
     Nested,
     /// right prefix, unknown base denom
@@ -170,7 +172,7 @@ fn who() -> BoxedStrategy<Who> {
 }
 fn form(malicious: bool) -> BoxedStrategy<DenomForm> {
     if malicious {
-        prop_oneof![8 => Just(DenomForm::Right), 2 => Just(DenomForm::Bare), 2 => Just(DenomForm::WrongPort), 2 => Just(DenomForm::WrongChannel), 3 => (0u8..3).prop_map(DenomForm::OtherChannel), 2 => Just(DenomForm::NearChannel), 1 => Just(DenomForm::NearPort), 1 => Just(DenomForm::Nested), 1 => Just(DenomForm::UnknownBase)].boxed()
+        prop_oneof![8 => Just(DenomForm::Right), 2 => Just(DenomForm::Bare), 2 => Just(DenomForm::WrongPort), 2 => Just(DenomForm::WrongChannel), 3 => (0u8..3).prop_map(DenomForm::OtherChannel), 2 => Just(DenomForm::NearChannel), 1 => Just(DenomForm::NearPort), 1 => Just(DenomForm::WasmPort), 1 => Just(DenomForm::Nested), 1 => Just(DenomForm::UnknownBase)].boxed()
     } else {
         prop_oneof![12 => Just(DenomForm::Right), 1 => Just(DenomForm::Bare)].boxed()
     }
@@ -192,9 +194,10 @@ fn recv_amt(malicious: bool) -> BoxedStrategy<RecvAmt> {
 
 fn op(prop: &str, malicious: bool) -> BoxedStrategy<Op> {
     let send_n = (user(), prop_oneof![15 => 0u8..3, 1 => Just(3u8)], 0u8..N_NATIVE as u8, send_amt(), prop_oneof![6 => Just(None), 1 => Just(Some(0u32)), 1 => Just(Some(1u32)), 3 => (1u32..5000).prop_map(Some)], memo()).prop_map(|(by, ch, denom, amt, timeout, memo)| Op::SendNative { by, ch, denom, amt, timeout, memo }).boxed();
-    let send_c = (user(), prop_oneof![15 => 0u8..3, 1 => Just(3u8)], 0u8..N_CW20 as u8, send_amt(), prop_oneof![6 => Just(None), 1 => Just(Some(0u32)), 1 => Just(Some(1u32)), 3 => (1u32..5000).prop_map(Some)], memo()).prop_map(|(by, ch, tok, amt, timeout, memo)| Op::SendCw20 { by, ch, tok, amt, timeout, memo }).boxed();
+    // (sender 200: the governance address itself sends tokens - honoured in C18 histories only)
+    let send_c = (prop_oneof![12 => user().boxed(), 1 => Just(200u8).boxed()], prop_oneof![15 => 0u8..3, 1 => Just(3u8)], 0u8..N_CW20 as u8, send_amt(), prop_oneof![6 => Just(None), 1 => Just(Some(0u32)), 1 => Just(Some(1u32)), 3 => (1u32..5000).prop_map(Some)], memo()).prop_map(|(by, ch, tok, amt, timeout, memo)| Op::SendCw20 { by, ch, tok, amt, timeout, memo }).boxed();
     let deliver = any::<u16>().prop_map(|pkt| Op::Deliver { pkt }).boxed();
-    let recv = (0u8..3, 0u8..N_TOK as u8, proptest::option::weighted(0.8, any::<u16>()), form(malicious), recv_amt(malicious), prop_oneof![12 => 0u8..N_USERS as u8, 1 => Just(N_USERS as u8)], proptest::bool::weighted(0.2), proptest::bool::weighted(0.2))
+    let recv = (0u8..3, 0u8..N_TOK as u8, proptest::option::weighted(0.8, any::<u16>()), form(malicious), recv_amt(malicious), if malicious { prop_oneof![12 => 0u8..N_USERS as u8, 1 => Just(N_USERS as u8), 1 => Just(N_USERS as u8 + 1)].boxed() } else { prop_oneof![12 => 0u8..N_USERS as u8, 1 => Just(N_USERS as u8)].boxed() }, proptest::bool::weighted(0.2), proptest::bool::weighted(0.2))
         .prop_map(|(ch, tok, live, form, amt, receiver, payout_fails, memo)| Op::Recv { ch, tok, live, form, amt, receiver, payout_fails, memo })
         .boxed();
     // third arm: a well-formed packet whose denom trace names an odd, long, non-ASCII channel (error texts echo it)
@@ -522,6 +525,12 @@ pub fn run_case(prop: &str, case: &Case, ctx: &mut CaseCtx) -> Result<(), Violat
         };
         cw20.push(app.instantiate_contract(ccode, faucet.clone(), &msg, &[], format!("tok{i}"), None).expect("cw20"));
     }
+    // the governance addresses hold a few tokens too
+    for g in &govs {
+        for t in &cw20 {
+            app.execute_contract(faucet.clone(), t.clone(), &Cw20ExecuteMsg::Transfer { recipient: g.to_string(), amount: Uint128::new(1_000_000_000) }, &[]).expect("fund governance");
+        }
+    }
     let natives = native_denoms(&cw20);
     for u in &users {
         for d in &natives {
@@ -676,7 +685,9 @@ pub fn run_case(prop: &str, case: &Case, ctx: &mut CaseCtx) -> Result<(), Violat
                 if prop == "C18" {
                     let by = *by as usize % N_USERS;
                     let chx = *ch as usize % n_ch;
-                    let denom = format!("cw20:{}", w.cw20[*tok as usize % N_CW20]);
+                    // (a third of them spell the token's address in upper case)
+                    let spelled = if *amt % 3 == 0 { w.cw20[*tok as usize % N_CW20].to_string().to_uppercase() } else { w.cw20[*tok as usize % N_CW20].to_string() };
+                    let denom = format!("cw20:{spelled}");
                     let amount = 1 + *amt as u128;
                     w.app.sudo(SudoMsg::Bank(BankSudo::Mint { to_address: w.users[by].to_string(), amount: coins(amount, denom.clone()) })).expect("mint");
                     let tmsg = TransferMsg { channel: chan_id(chx), remote_address: "remote-user-a".into(), timeout: None, memo: None };
@@ -696,6 +707,8 @@ pub fn run_case(prop: &str, case: &Case, ctx: &mut CaseCtx) -> Result<(), Violat
             }
             Op::SendNative { by, ch, denom, amt, timeout, memo } | Op::SendCw20 { by, ch, tok: denom, amt, timeout, memo } => {
                 let is_native = matches!(op, Op::SendNative { .. });
+                // C18: a cw20 transfer whose initiator (the sender the token reports) is the governance address
+                let by_gov: Option<Addr> = if prop == "C18" && !is_native && *by >= 200 { pre.admin.as_ref().map(|a| Addr::unchecked(a.clone())) } else { None };
                 let by = *by as usize % N_USERS;
                 let tok = if is_native { *denom as usize % N_NATIVE } else { N_NATIVE + *denom as usize % N_CW20 };
                 // ch == 3 addresses a channel that was never connected
@@ -705,12 +718,18 @@ pub fn run_case(prop: &str, case: &Case, ctx: &mut CaseCtx) -> Result<(), Violat
                     SendAmt::Abs(a) => *a,
                     SendAmt::Frac(k) => ((pre.users[by][tok] >> 8) * (*k as u128 + 1)).min(u64::MAX as u128),
                 };
-                let remote = format!("remote-user-{}", step_no % 3);
+                let amount = if by_gov.is_some() { amount.min(1_000_000) } else { amount };
+                // (now and then pasted with white space around it: it is carried as given)
+                let remote = if step_no % 5 == 4 { format!(" remote-user-{} \n", step_no % 3) } else { format!("remote-user-{}", step_no % 3) };
                 let tmsg = TransferMsg { channel: if ch_exists { chan_id(chx) } else { "channel-77".into() }, remote_address: remote.clone(), timeout: timeout.map(|t| t as u64), memo: memo.clone() };
                 let r = if is_native {
                     try_exec(&mut w.app, &w.users[by].clone(), &w.ics20.clone(), &ExecuteMsg::Transfer(tmsg), &[Coin::new(amount, w.natives[tok].clone())])
                 } else {
-                    try_exec(&mut w.app, &w.users[by].clone(), &w.cw20[tok - N_NATIVE].clone(), &Cw20ExecuteMsg::Send { contract: w.ics20.to_string(), amount: Uint128::new(amount), msg: to_json_binary(&tmsg).unwrap() }, &[])
+                    let from = by_gov.clone().unwrap_or_else(|| w.users[by].clone());
+                    if by_gov.is_some() {
+                        ctx.count("cw20_transfer_sent_by_governance");
+                    }
+                    try_exec(&mut w.app, &from, &w.cw20[tok - N_NATIVE].clone(), &Cw20ExecuteMsg::Send { contract: w.ics20.to_string(), amount: Uint128::new(amount), msg: to_json_binary(&tmsg).unwrap() }, &[])
                 };
                 Done::Send { by, ch: chx, tok, amount, ok: r.is_ok(), timeout: *timeout, memo: memo.clone(), remote, ch_exists }
             }
@@ -751,6 +770,7 @@ pub fn run_case(prop: &str, case: &Case, ctx: &mut CaseCtx) -> Result<(), Violat
                     DenomForm::OtherChannel(k) => format!("{REMOTE_PORT}/{}/{base}", remote_chan_id((chx + 1 + *k as usize % 2) % 3)),
                     DenomForm::NearChannel => format!("{REMOTE_PORT}/{}5/{base}", remote_chan_id(chx)),
                     DenomForm::NearPort => format!("{REMOTE_PORT}x/{}/{base}", remote_chan_id(chx)),
+                    DenomForm::WasmPort => format!("wasm.{REMOTE_PORT}/{}/{base}", remote_chan_id(chx)),
                     DenomForm::Nested => format!("{REMOTE_PORT}/{}/{REMOTE_PORT}/{}/{base}", remote_chan_id(chx), remote_chan_id(chx)),
                     DenomForm::UnknownBase => format!("{REMOTE_PORT}/{}/unknowndenom", remote_chan_id(chx)),
                 };
@@ -780,7 +800,15 @@ pub fn run_case(prop: &str, case: &Case, ctx: &mut CaseCtx) -> Result<(), Violat
                         eff_form = DenomForm::Bare;
                     }
                 }
-                let (rcv_ix, rcv_str) = if (*receiver as usize) < N_USERS { (Some(*receiver as usize), w.users[*receiver as usize].to_string()) } else { (None, "not-a-valid-address".to_string()) };
+                // receiver N_USERS: not an address at all; N_USERS + 1 (malicious counterparty only): the ics20
+                // contract's own address
+                let (rcv_ix, rcv_str) = if (*receiver as usize) < N_USERS {
+                    (Some(*receiver as usize), w.users[*receiver as usize].to_string())
+                } else if *receiver as usize == N_USERS + 1 && case.malicious {
+                    (None, w.ics20.to_string())
+                } else {
+                    (None, "not-a-valid-address".to_string())
+                };
                 let data = to_json_binary(&WirePacket { amount: Uint128::new(amount), denom, receiver: rcv_str.clone(), sender: "remote-sender".into(), memo: if *memo { Some("hello".into()) } else { None } }).unwrap();
                 // fault injection for this step only
                 let inject = *payout_fails;
@@ -1253,6 +1281,8 @@ fn check_gas(prop: &str, w: &World, pre: &Obs, subs: &[SubLog], at: &str, ctx: &
     for s in subs {
         match &s.msg {
             cosmwasm_std::CosmosMsg::Wasm(WasmMsg::Execute { contract_addr, .. }) => {
+                // (whatever the spelling: an address names the same account in upper and lower case)
+                let contract_addr = &contract_addr.to_lowercase();
                 if !w.cw20.iter().any(|c| c.as_str() == contract_addr) {
                     continue;
                 }
@@ -1465,7 +1495,7 @@ pub fn decode_case(prop: &str, u: &mut arbitrary::Unstructured) -> Case {
         let timeout = if arb_bool(u, 2, 5) { Some(u.arbitrary::<u16>().unwrap_or(0) as u32 % 5000) } else { None };
         let op = match arb_below(u, 16) {
             0 | 1 => Op::SendNative { by: arb_below(u, N_USERS) as u8, ch, denom: arb_below(u, N_NATIVE) as u8, amt: d_send_amt(u), timeout, memo: d_memo(u) },
-            2 | 3 => Op::SendCw20 { by: arb_below(u, N_USERS) as u8, ch, tok: arb_below(u, N_CW20) as u8, amt: d_send_amt(u), timeout, memo: d_memo(u) },
+            2 | 3 => Op::SendCw20 { by: if arb_bool(u, 1, 13) { 200 } else { arb_below(u, N_USERS) as u8 }, ch, tok: arb_below(u, N_CW20) as u8, amt: d_send_amt(u), timeout, memo: d_memo(u) },
             4 => Op::Deliver { pkt: u.arbitrary().unwrap_or(0) },
             5..=8 => {
                 let form = if malicious {
@@ -1475,7 +1505,7 @@ pub fn decode_case(prop: &str, u: &mut arbitrary::Unstructured) -> Case {
                         6 => DenomForm::WrongPort,
                         7 => DenomForm::WrongChannel,
                         8 => if arb_bool(u, 1, 2) { DenomForm::OtherChannel(arb_below(u, 3) as u8) } else { DenomForm::NearChannel },
-                        _ => [DenomForm::Nested, DenomForm::UnknownBase, DenomForm::NearPort][arb_below(u, 3)],
+                        _ => [DenomForm::Nested, DenomForm::UnknownBase, DenomForm::NearPort, DenomForm::WasmPort][arb_below(u, 4)],
                     }
                 } else if arb_bool(u, 1, 12) {
                     DenomForm::Bare
@@ -1489,7 +1519,7 @@ pub fn decode_case(prop: &str, u: &mut arbitrary::Unstructured) -> Case {
                     4 => RecvAmt::Frac(u.arbitrary().unwrap_or(0)),
                     _ => if malicious { RecvAmt::Abs(vcore::amounts::arb_u128(u)) } else { RecvAmt::Frac(255) },
                 };
-                Op::Recv { ch: arb_below(u, 3) as u8, tok: arb_below(u, N_TOK) as u8, live: if arb_bool(u, 4, 5) { Some(u.arbitrary().unwrap_or(0)) } else { None }, form, amt, receiver: if arb_bool(u, 1, 13) { N_USERS as u8 } else { arb_below(u, N_USERS) as u8 }, payout_fails: arb_bool(u, 1, 5), memo: arb_bool(u, 1, 5) }
+                Op::Recv { ch: arb_below(u, 3) as u8, tok: arb_below(u, N_TOK) as u8, live: if arb_bool(u, 4, 5) { Some(u.arbitrary().unwrap_or(0)) } else { None }, form, amt, receiver: if arb_bool(u, 1, 13) { N_USERS as u8 + if malicious && arb_bool(u, 1, 2) { 1 } else { 0 } } else { arb_below(u, N_USERS) as u8 }, payout_fails: arb_bool(u, 1, 5), memo: arb_bool(u, 1, 5) }
             }
             9 => {
                 let n = arb_below(u, 40);
